@@ -69,5 +69,24 @@ if os.path.exists(res_path):
     out.append("")
     out.append(f"Totals: {tot} confirmed seeded changes; {own_c} caught by their own property's check; {any_c} caught by at least one registered check.\n")
 
+ref_path = "/verif/refactors/RESULTS.json"
+if os.path.exists(ref_path):
+    ref = json.load(open(ref_path))
+    out.append("## D. Confirmed behaviour-preserving refactorings (sub-agents, rounds 5 and 6) against all 20 properties' rules\n")
+    out.append("Each patch applies to the pinned tree, builds and keeps the whole suite green; any report is a false alarm of the checker (tools/run_refactors.py).\n")
+    out.append("| refactoring | silent on all properties | helpers folded back in | reports |")
+    out.append("|---|---|---|---|")
+    for rid in sorted(ref):
+        r = ref[rid]
+        if not r.get("applies"):
+            out.append(f"| {rid} | patch no longer applies | | |")
+            continue
+        folded = sorted(set(n.split("call of ")[1].split(" in ")[0] for n in r.get("folding", []) if "call of " in n))
+        folded += sorted(set("closure " + n.split("closure ")[1].split(" in ")[0] for n in r.get("folding", []) if "local closure " in n))
+        out.append(f"| {rid} | {'yes' if r.get('silent') else 'NO'} | {', '.join(folded)} | {'; '.join(a.split(' at ')[0] for a in r.get('alarms', [])[:3])} |")
+    n_s = sum(1 for r in ref.values() if r.get("silent"))
+    out.append("")
+    out.append(f"Totals: {len(ref)} refactorings; {n_s} raise no report on any property.\n")
+
 open("/verif/DESIGN_TABLES.md", "w").write("\n".join(out))
 print("written", len(out), "lines")
